@@ -80,6 +80,7 @@ type contractDB struct {
 	immutable  map[string]bool // Struct.field: written only at construction, modelled as a pure function
 	frozen     map[string]bool // Struct.field holding a map whose contents never change once stored
 	frozenType map[string]bool // named map types whose values never change once converted
+	neverClosed map[string]bool // Struct.field channels that no code in /repo closes (receives never see "closed")
 }
 
 var clauseKeywords = map[string]bool{
@@ -91,7 +92,7 @@ var clauseKeywords = map[string]bool{
 var blockRe = regexp.MustCompile(`(?s)/\*@(.*?)@\*/`)
 
 func loadContracts(files []string) (*contractDB, error) {
-	db := &contractDB{theories: map[string]*block{}, funcs: map[string]*block{}, ifaces: map[string]*block{}, chaninv: map[string]*block{}, lemmas: map[string]*block{}, immutable: map[string]bool{}, frozen: map[string]bool{}, frozenType: map[string]bool{}}
+	db := &contractDB{theories: map[string]*block{}, funcs: map[string]*block{}, ifaces: map[string]*block{}, chaninv: map[string]*block{}, lemmas: map[string]*block{}, immutable: map[string]bool{}, frozen: map[string]bool{}, frozenType: map[string]bool{}, neverClosed: map[string]bool{}}
 	sort.Strings(files)
 	for _, f := range files {
 		data, err := os.ReadFile(f)
@@ -146,6 +147,10 @@ func (db *contractDB) add(b *block) error {
 		for _, g := range b.globs {
 			db.frozenType[g] = true
 		}
+	case "neverclosed":
+		for _, g := range b.globs {
+			db.neverClosed[g] = true
+		}
 	case "opaque":
 		for _, g := range b.globs {
 			db.opaque = append(db.opaque, g)
@@ -188,7 +193,7 @@ func parseBlock(body, file string, line int) (*block, error) {
 			return nil, fmt.Errorf("expected 'assumed func <name>'")
 		}
 		b.kind, b.name = "assumed", strings.Join(hdr[2:], " ")
-	case "opaque", "immutable", "frozen", "frozen-type":
+	case "opaque", "immutable", "frozen", "frozen-type", "neverclosed":
 		b.kind = hdr[0]
 		b.globs = hdr[1:]
 		for _, l := range lines[hi+1:] {
